@@ -4,6 +4,8 @@ import (
 	"context"
 	"errors"
 	"fmt"
+	"google.golang.org/grpc/codes"
+	"google.golang.org/grpc/status"
 	"io"
 	"net/http"
 	"net/http/httptest"
@@ -35,6 +37,7 @@ type ServerNode struct {
 	Addr   string
 	Status http.Handler
 	Net    *PeerNet
+	Proxy  *ScriptedProxy // set when the node runs with the etcd proxy enabled
 }
 
 // PeerNet is the simulated network between nodes (the follower's revision fetch).
@@ -167,7 +170,8 @@ func (w *World) AddServer(pn *PeerNet, enableProxy bool) *ServerNode {
 	sn.Status = srv.GetPeerHttpHandlers()["/status"]
 	service.SetPeerTransportForSim(sn.Peers, &peerRT{net: pn, from: id})
 	if enableProxy {
-		service.SetEtcdProxyForSim(sn.Peers, &ScriptedProxy{Net: pn, From: id})
+		sn.Proxy = &ScriptedProxy{Net: pn, From: id}
+		service.SetEtcdProxyForSim(sn.Peers, sn.Proxy)
 	}
 	pn.Servers[addr] = sn
 	// let this node's background loops reach their first cooperative point (the retry loop registers
@@ -183,8 +187,10 @@ type ScriptedProxy struct {
 	Net  *PeerNet
 	From int
 	Fail bool
-	Txns int
-	Wats int
+	// Unavailable: the proxy has no connection to the leader and answers like the real one then does
+	Unavailable bool
+	Txns        int
+	Wats        int
 }
 
 func (p *ScriptedProxy) EtcdProxyEnabled() bool { return true }
@@ -201,6 +207,9 @@ func (p *ScriptedProxy) leader() *ServerNode {
 func (p *ScriptedProxy) Txn(ctx context.Context, txn *etcdserverpb.TxnRequest) (*etcdserverpb.TxnResponse, error) {
 	p.Txns++
 	l := p.leader()
+	if p.Unavailable {
+		return nil, status.Error(codes.Unavailable, "no ready right now")
+	}
 	if p.Fail || l == nil {
 		return nil, errors.New("scripted proxy: leader unreachable")
 	}
